@@ -7,6 +7,12 @@ from lib import vf, tlaparse
 
 
 # ------------------------------------------------------------------------------------------ helpers
+def _workers():
+    """TLC workers: the framework default unless VERIF_WORKERS is set (builders share the machine)."""
+    w = int(os.environ.get('VERIF_WORKERS', '0') or 0)
+    return w or None
+
+
 def flat_rows(c, res, var='row'):
     """Fast reader for a `-dump` whose states are ONE variable holding a flat tuple of strings / ints /
     booleans (the table specs of this family are written that way: 10^5..10^6 rows). Strings of these
@@ -34,7 +40,7 @@ def flat_rows(c, res, var='row'):
 # ---------------------------------------------------------------------------------------------- C33
 def c33(c):
     cfg = 'quick.cfg' if c.tier == 'quick' else 'thorough.cfg'
-    r = c.tlc_exhaustive('PushFrame', 'PushFrame', cfg, dump=True, timeout=1500)
+    r = c.tlc_exhaustive('PushFrame', 'PushFrame', cfg, dump=True, timeout=1500, workers=_workers())
     rows = [x for x in flat_rows(c, r) if x[0] != 'seed']
     bad = [x for x in rows if not (x[10] and x[11])]
     if bad:
@@ -73,7 +79,7 @@ def c33(c):
 # ---------------------------------------------------------------------------------------------- C34
 def c34(c):
     cfg = 'quick.cfg' if c.tier == 'quick' else 'thorough.cfg'
-    r = c.tlc_exhaustive('RedisKeys', 'RedisKeys', cfg, dump=True, timeout=1500)
+    r = c.tlc_exhaustive('RedisKeys', 'RedisKeys', cfg, dump=True, timeout=1500, workers=_workers())
     allrows = flat_rows(c, r)
     ops = [x for x in allrows if x[0] == 'ops']
     rows = [x for x in allrows if x[0] not in ('ops', 'seed')]
@@ -141,7 +147,7 @@ def c35(c):
     with open(os.path.join(specdir, 'PartitionData.tla'), 'w') as fh:
         fh.write(partition_data_module(sizes, tags))
     c.log('code data: sizes %s, %d tags' % (sizes, sum(len(v) for v in tags.values())))
-    r = c.tlc_exhaustive('Partition', 'Partition', cfg, dump=True, timeout=1800)
+    r = c.tlc_exhaustive('Partition', 'Partition', cfg, dump=True, timeout=1800, workers=_workers())
     rows = [x for x in flat_rows(c, r) if x[0] != 'seed']
     nbal = 0
     for x in rows:
